@@ -176,10 +176,15 @@ fn gen_schedule(rng: &mut Rng, len: usize, bounds: &[usize], storage: usize) -> 
 }
 
 fn push_reader_case(out: &mut Cases, op: u32, sh: bool, f: &Option<DltFilterConfig>, cap: u128, sched: &[u64], bytes: &[u8]) {
+    push_reader_case_mml(out, op, sh, f, cap, 0, sched, bytes)
+}
+
+fn push_reader_case_mml(out: &mut Cases, op: u32, sh: bool, f: &Option<DltFilterConfig>, cap: u128, mml: u128, sched: &[u64], bytes: &[u8]) {
     let mut w = W::new();
     w.bool(sh);
     w.opt_filter(f);
     w.n(cap);
+    w.n(mml);
     w.n(sched.len() as u128);
     for k in sched {
         w.n(*k as u128);
@@ -224,6 +229,45 @@ pub fn gen_readers(rng: &mut Rng, thorough: bool, op: u32, out: &mut Cases) {
                 push_reader_case(out, op, sh, &None, cap, &[4096, 0, 70000], &b);
                 push_reader_case(out, op, sh, &None, cap, &[], &b[..b.len() - 1]);
             }
+        }
+    }
+    // a reader built with its own (small) maximum message length: messages up to exactly that length, both modes
+    for sh in [false, true] {
+        let storage = if sh { 16usize } else { 0 };
+        for mml in [168usize, 64, 40] {
+            for l in [mml - storage, mml - storage - 1, mml - storage - 15, mml - storage - 16, 8] {
+                if l < 8 || l > 65535 {
+                    continue;
+                }
+                let mut one = vec![0u8; storage + l];
+                if sh {
+                    one[..4].copy_from_slice(b"DLT\x01");
+                }
+                one[storage] = 0x20;
+                one[storage + 2] = (l >> 8) as u8;
+                one[storage + 3] = l as u8;
+                let mut b = one.clone();
+                b.extend_from_slice(&one);
+                b.extend_from_slice(&one[..storage]);
+                b.extend_from_slice(&[0x20, 1, 0, 8, 1, 2, 3, 4]);
+                for sched in [vec![], vec![7u64; 80], vec![0, 3, 0, 1000]] {
+                    push_reader_case_mml(out, op, sh, &None, 0, mml as u128, &sched, &b);
+                }
+            }
+        }
+    }
+    // very long runs of interruptions (a retry loop must not give up)
+    for (i, run) in [99usize, 100, 101, 150, 1000].iter().enumerate() {
+        let (sh, bytes, _) = gen_stream(rng, i + 3);
+        if bytes.is_empty() {
+            continue;
+        }
+        for at in [0usize, 1, 5] {
+            let mut sched: Vec<u64> = vec![1; at * 7];
+            sched.extend(std::iter::repeat(0).take(*run));
+            sched.push(9);
+            sched.extend(std::iter::repeat(0).take(*run));
+            push_reader_case(out, op, sh, &None, 0, &sched, &bytes);
         }
     }
     for i in 0..n {
